@@ -5,6 +5,12 @@ namespace UvModel.Async
 @[simp] theorem upd_same (f : Nat → HS) (i : Nat) (v : HS) : upd f i v i = v := by simp [upd]
 theorem upd_other (f : Nat → HS) (i : Nat) (v : HS) (j : Nat) (h : j ≠ i) : upd f i v j = f j := by simp [upd, h]
 
+theorem step?_eintr {s s' : State} {w : Option Nat} (hs : step? s (.eintr w) = some s') : s' = s := by
+  cases w with
+  | none => simp only [step?] at hs; split at hs <;> simp at hs; exact hs.symm
+  | some t => simp only [step?] at hs; repeat' split at hs
+              all_goals first | (simp at hs; done) | (simp at hs; exact hs.symm)
+
 def qMustBeEmpty : LPc → Bool
   | .idle | .drain | .closeStore _ .idle | .closeSpin _ .idle => true
   | _ => false
@@ -65,6 +71,7 @@ theorem invL_step {s s' : State} {a : Act} (hI : InvL s) (hs : step? s a = some 
     simp only [step?] at hs
     cases hl : s.lpc <;> simp only [hl, LPc.ret?] at hs <;> (try (simp at hs; done)) <;> split at hs <;> (try (simp at hs; done)) <;>
       (simp only [Option.some.injEq] at hs; subst hs; constructor <;> simp [setH, upd, qMustBeEmpty] <;> grind [InvL, qMustBeEmpty])
+  | eintr w => cases step?_eintr hs; exact hI
   | closeCbs =>
     simp only [step?] at hs
     repeat' split at hs
@@ -105,6 +112,7 @@ theorem invS_step {s s' : State} {a : Act} (hI : InvS s) (hs : step? s a = some 
     repeat' split at hs
     all_goals first | (simp at hs; done) | skip
     all_goals (simp only [Option.some.injEq] at hs; subst hs; constructor <;> simp [setH, upd] <;> grind [InvS, LPc.ret?])
+  | eintr w => cases step?_eintr hs; exact hI
   | closeCbs =>
     simp only [step?] at hs
     repeat' split at hs
